@@ -202,6 +202,13 @@ pub fn gen_security(r: &mut Rng, sec: &str, names: &mut Vec<String>) -> (Vec<Tx>
         }
     }
     let mut rows: Vec<Tx> = c.txs.into_iter().map(|t| rename(t, sec)).collect();
+    // twin fills: now and then a purchase is followed by a row identical in every field
+    if r.chance(6) {
+        if let Some(i) = rows.iter().position(|t| matches!(t.action_specifics, TxActionSpecifics::Buy(_))) {
+            let twin = rows[i].clone();
+            rows.insert(i + 1, twin);
+        }
+    }
     // turn some per-affiliate splits into global ones
     let globalize = r.chance(60);
     for t in rows.iter_mut() {
